@@ -105,8 +105,8 @@ fn main() {
         ctx.exhaustive(&name, "reader-case", &domain, true, all_chunkings(&input, &script).collect::<Vec<_>>(), run_case);
     }
 
-    ctx.prop_split("generated", "reader-case", ctx.n(6_000, 200_000), ctx.parts(), case(10).boxed(), run_case);
-    ctx.prop("generated-short", "reader-case", ctx.n(6_000, 100_000), case(3), run_case);
+    ctx.prop_split("generated", "reader-case", ctx.n(6_000, 1_500_000), ctx.parts(), case(10).boxed(), run_case);
+    ctx.prop("generated-short", "reader-case", ctx.n(6_000, 1_000_000), case(3), run_case);
     if buf >= 1024 && buf <= (1 << 22) {
         ctx.prop_cfg("long-inputs-at-buffer-boundary", "reader-case", ctx.n(500, 8_000), 200, long_case(buf), run_case);
     } else {
